@@ -1,7 +1,6 @@
 package props
 
 import (
-	"reflect"
 	"bytes"
 	"context"
 	"encoding/binary"
@@ -10,6 +9,7 @@ import (
 	"go/parser"
 	"go/token"
 	"path/filepath"
+	"reflect"
 	"sort"
 	"strings"
 	"time"
@@ -89,7 +89,7 @@ func (a *accCtx) idx(name string) int {
 	return -1
 }
 
-func u64v(x uint64) *rs.Value   { return &rs.Value{U: x} }
+func u64v(x uint64) *rs.Value    { return &rs.Value{U: x} }
 func rootv(r [32]byte) *rs.Value { return &rs.Value{B: append([]byte{}, r[:]...)} }
 
 func (a *accCtx) randRoot() (r common.Root) {
@@ -164,7 +164,9 @@ func (a *accCtx) step(s *accState, viol func(sig, what string)) string {
 	get := func(name string) *rs.Value { return m.Items[fi(name)] }
 	set := func(name string, v *rs.Value) { m.Items[fi(name)] = v }
 	nVals := len(get("validators").Items)
-	cpv := func(cp common.Checkpoint) *rs.Value { return &rs.Value{Items: []*rs.Value{u64v(uint64(cp.Epoch)), rootv(cp.Root)}} }
+	cpv := func(cp common.Checkpoint) *rs.Value {
+		return &rs.Value{Items: []*rs.Value{u64v(uint64(cp.Epoch)), rootv(cp.Root)}}
+	}
 	check := func(op string, err error) bool {
 		if err != nil {
 			viol("accessor-error/"+op, fmt.Sprintf("%s on a %s state returned an error: %v", op, a.fork, err))
